@@ -366,7 +366,7 @@ impl Property for C02 {
         ]
     }
     fn cases(&self, tier: Tier) -> u32 {
-        tier.pick(160_000, 3_000_000)
+        tier.pick(160_000, 8_000_000)
     }
     fn isolated(&self) -> bool {
         true
